@@ -19,9 +19,9 @@ INT_FIELDS = ("node_id", "child_id", "command", "message_type")
 
 def run(ctx: Ctx, chk) -> None:
     chk.assume("A3", "A5")
-    delim1(ctx, chk)
-    order1(ctx, chk)
-    delim2(ctx, chk)
+    chk.run_rule(delim1, ctx)
+    chk.run_rule(order1, ctx)
+    chk.run_rule(delim2, ctx)
     norm1(ctx, chk, "NORM-1")
 
 
